@@ -33,6 +33,8 @@ MUTANTS = {
     "gamma-memo-never-valid": ("pass", [("        a_prev = shape;\n", "")]),   # harmless: a_prev stays 0, always recomputes
     "gamma-memo-stale": ("caught", [("        d = shape - 1.0 / 3.0;\n        c = 1.0 / sqrt(9.0 * d);\n        a_prev = shape;",
                                     "        d = shape - 1.0 / 3.0;\n        c = (a_prev == 0.0) ? 1.0 / sqrt(9.0 * d) : c;\n        a_prev = shape;")]),
+    "gamma-memo-order": ("caught", [("        d = shape - 1.0 / 3.0;\n        c = 1.0 / sqrt(9.0 * d);\n", "        c = 1.0 / sqrt(9.0 * d);\n        d = shape - 1.0 / 3.0;\n")]),
+    "harmless-geometric-memo-fixed": ("pass", [("        denom = -log(1.0 - p);\n", "        denom = -log(1.0 - p);\n        prev = p;\n")]),
     "geometric-memo-live": ("caught", [("        denom = -log(1.0 - p);\n", "        denom = -log(1.0 - p);\n        prev = (p < 0.5) ? p : prev;\n")]),
     "harmless-commute": ("pass", [("prng_state.a + prng_state.b + prng_state.d++", "prng_state.b + prng_state.a + prng_state.d++")]),
     "harmless-while-loop": ("alarm-without-input", [("    for (int i = 0; i < 20; i++) {\n        (void)cmb_random_sfc64();\n    }",
@@ -64,8 +66,8 @@ def main():
             out = p.stdout.decode()
             viol = [l for l in out.splitlines() if l.startswith("VIOLATION")]
             why = [l.split("^", 1)[1].strip()[:230] for l in out.splitlines() if "  ^ " in l]
-            errs = sorted(set(re.findall(r"Props/C15\.lean:(\d+):", out)))
-            print("%-26s exit=%d expected=%s %s\n    lean errors at Props/C15.lean lines %s\n    %s" % (
+            errs = sorted(set("%s:%s" % m for m in re.findall(r"(Props/C15|Rng/Lemmas)\.lean:(\d+):", out)))
+            print("%-26s exit=%d expected=%s %s\n    lean errors at %s\n    %s" % (
                 name, p.returncode, exp, "no-failing-input-found" if any("no-failing" in v for v in viol) else ("REPLAY" if viol else ""),
                 errs, "\n    ".join(why)), flush=True)
     finally:
